@@ -10,12 +10,12 @@ open Prom Prom.Conc Hp
 
 /-- what one accepted event does to `claimed`: nothing, or (only from an `obsStart` task: the claim
     step) it appends that task's observation; and no event ever leaves its call in an `obsStart` task -/
-theorem evStep_claim {k : Nat} {c : Hp.St} {cuts : Cuts} {e : Ev} {pc : Pc} {c' : Hp.St} {pc' : Pc}
+theorem evStep1_claim {k : Nat} {c : Hp.St} {cuts : Cuts} {e : Ev} {pc : Pc} {c' : Hp.St} {pc' : Pc}
     {rv : Option String} {cuts' : Cuts}
-    (h : evStep k c cuts e pc = .ok ((c', pc', rv), cuts')) :
+    (h : evStep1 k c cuts e pc = .ok ((c', pc', rv), cuts')) :
     (∀ o, pc'.task ≠ some (.obsStart o)) ∧
     (c'.claimed = c.claimed ∨ ∃ o, pc.task = some (.obsStart o) ∧ c'.claimed = c.claimed ++ [o]) := by
-  unfold evStep at h
+  unfold evStep1 at h
   simp only at h
   split at h
   · next ht =>
@@ -26,7 +26,8 @@ theorem evStep_claim {k : Nat} {c : Hp.St} {cuts : Cuts} {e : Ev} {pc : Pc} {c' 
     rw [plainR_ok, guard_ok] at h
     obtain ⟨⟨_, h⟩, _⟩ := h; cases h
     exact ⟨fun o ho => by simp at ho, .inr ⟨o, ht, rfl⟩⟩
-  · next o b cell a rest ht =>
+  · next o b p l ht =>
+    simp only [obsEntry] at h
     split at h
     · rw [plainR_ok, guard_ok] at h
       obtain ⟨⟨_, h⟩, _⟩ := h; cases h
@@ -102,6 +103,22 @@ theorem evStep_claim {k : Nat} {c : Hp.St} {cuts : Cuts} {e : Ev} {pc : Pc} {c' 
     · cases h
       exact ⟨fun o ho => by simp at ho, .inl rfl⟩
   · cases h
+
+/-- what one accepted event does to `claimed`: nothing, or (only from an `obsStart` task: the claim
+    step) it appends that task's observation; and no event ever leaves its call in an `obsStart` task -/
+theorem evStep_claim {k : Nat} {c : Hp.St} {cuts : Cuts} {e : Ev} {pc : Pc} {c' : Hp.St} {pc' : Pc}
+    {rv : Option String} {cuts' : Cuts}
+    (h : evStep k c cuts e pc = .ok ((c', pc', rv), cuts')) :
+    (∀ o, pc'.task ≠ some (.obsStart o)) ∧
+    (c'.claimed = c.claimed ∨ ∃ o, pc.task = some (.obsStart o) ∧ c'.claimed = c.claimed ++ [o]) := by
+  unfold evStep at h
+  have h1 := evStep1_claim h
+  rcases skipTask_cases k (parseLoc e.loc) pc.task with hs | ⟨cold, ov, cell, todo, taken, S, ht, hs, _⟩
+  · rw [skipPc_of_task_eq hs] at h1; exact h1
+  · refine ⟨h1.1, ?_⟩
+    rcases h1.2 with h2 | ⟨o, h2, _⟩
+    · exact .inl h2
+    · simp [skipPc, hs] at h2
 
 /-- the thread can still perform the claim step of the call with its current index: it is between
     calls (the next call has index `idx`), or its open call has not claimed yet -/
